@@ -285,7 +285,7 @@ Proof. destruct e; cbn; auto. Qed.
 (* ================= the theorem ================= *)
 Definition hit_collect (s:fstate) : Prop := bad_read s.
 Definition parse_status (f:idx) : N :=
-  match fl f with Some ForeignDetect | Some ForeignAmbiguous | Some ForeignJson | Some PbDecode => 1 | _ => 2 end%N.
+  match fl f with Some ForeignDetect | Some ForeignAmbiguous | Some ForeignJson | Some PbDecode | Some PbMerge => 1 | _ => 2 end%N.
 
 Theorem fault_fails_clean s choice : reachable s -> ftasks s = [] ->
   let o := foutcome R fl root choice s in
